@@ -24,6 +24,9 @@
 #include <sstream>
 
 #include <nop/utility/constexpr_buffer_writer.h>
+#include <nop/utility/fd_reader.h>
+#include <nop/utility/fd_writer.h>
+#include <unistd.h>
 #include <nop/utility/pedantic_buffer_reader.h>
 #include <nop/utility/pedantic_buffer_writer.h>
 #include <nop/utility/stream_reader.h>
@@ -84,11 +87,36 @@ template <> struct TlVal<std::unique_ptr<int>> {
   static int to(const std::unique_ptr<int>& s) { return s ? *s : -2; }
 };
 template <typename TL, typename V>
+int InitFrom(V v, std::true_type) { const V& cv = v; TL h(cv); return TlVal<V>::to(h.Get()); }
+template <typename TL, typename V>
+int InitFrom(V v, std::false_type) { TL h(std::move(v)); return TlVal<V>::to(h.Get()); }
+template <typename TL, typename V>
+int InitFromMutable(V v, std::true_type) { V& mv = v; TL h(mv); return TlVal<V>::to(h.Get()); }
+template <typename TL, typename V>
+int InitFromMutable(V v, std::false_type) { TL h(std::move(v)); return TlVal<V>::to(h.Get()); }
+template <typename TL, typename V>
+int InitializeFrom(V v, std::true_type) { const V& cv = v; TL h; h.Initialize(cv); return TlVal<V>::to(h.Get()); }
+template <typename TL, typename V>
+int InitializeFrom(V v, std::false_type) { TL h; h.Initialize(std::move(v)); return TlVal<V>::to(h.Get()); }
+template <typename TL, typename V>
 int TlOp(const std::string& op, int val) {
   using C = TlVal<V>;
-  if (op == "init") { TL h(C::from(val)); return C::to(h.Get()); }
+  // the initial value is handed over in the three value categories a caller may use (rvalue, const lvalue, non-const
+  // lvalue - copyable value types only): which overload takes it must not matter
+  const int form = (val + 1) % 3;     // 1: const lvalue, 2: non-const lvalue, 0: rvalue
+  if (op == "init") {
+    if (form == 1) return InitFrom<TL, V>(C::from(val), std::is_copy_constructible<V>{});
+    if (form == 2) return InitFromMutable<TL, V>(C::from(val), std::is_copy_constructible<V>{});
+    TL h(C::from(val));
+    return C::to(h.Get());
+  }
   // a handle constructed without arguments leaves an empty slot empty; Initialize() then applies the same rule
-  if (op == "initialize") { TL h; h.Initialize(C::from(val)); return C::to(h.Get()); }
+  if (op == "initialize") {
+    if (form == 1) return InitializeFrom<TL, V>(C::from(val), std::is_copy_constructible<V>{});
+    TL h;
+    h.Initialize(C::from(val));
+    return C::to(h.Get());
+  }
   if (op == "set") { TL h(C::from(val)); h.Get() = C::from(val); return C::to(h.Get()); }
   if (op == "clear") { TL h(C::from(0)); h.Clear(); return -1; }
   return -1;
@@ -188,6 +216,34 @@ void EmitCuts(const T& v, const uint8_t* buf, size_t n, JsonOut& o) {
   }
   o.end_arr();
 }
+// tables need Skip, which the descriptor classes do not have
+template <typename T> struct FdCapable : std::true_type {};
+template <> struct FdCapable<TlTable> : std::false_type {};
+template <typename T>
+void FdRoundTrip(const T&, uint8_t*, size_t, T*, nop::Status<void>*, nop::Status<void>*, size_t*, size_t*, size_t*, std::false_type) {}
+// descriptor classes over a pipe; the reader receives its descriptor by move assignment into a default-constructed
+// Deserializer (a long-lived connection object that is handed a new descriptor)
+template <typename T>
+void FdRoundTrip(const T& v, uint8_t* buf, size_t cap, T* back, nop::Status<void>* st, nop::Status<void>* st2, size_t* n, size_t* size,
+                 size_t* used, std::true_type) {
+  {
+    nop::Serializer<nop::BufferWriter> ref{buf, cap};
+    (void)ref.Write(v);
+    *n = ref.writer().size();                    // the bytes, for the record (the pipe's content is compared through v2)
+  }
+  int p[2] = {-1, -1};
+  if (::pipe(p) != 0) { *st = nop::ErrorStatus::SystemError; return; }
+  {
+    nop::Serializer<nop::FdWriter> ser{p[1]};
+    *size = ser.GetSize(v);
+    *st = ser.Write(v);
+  }                                              // the writer closes its end: the reader sees end of file after the value
+  nop::Deserializer<nop::FdReader> des;
+  des.reader() = nop::FdReader{p[0]};
+  *st2 = des.Read(back);
+  std::uint8_t extra_byte = 0;
+  *used = (*st2 && !des.reader().Read(&extra_byte)) ? *n : *n + 1;     // nothing may be left over
+}
 template <typename T>
 void RoundTrip(const char* tid, const T& v, std::string* extra) {
   uint8_t buf[512];
@@ -229,6 +285,8 @@ void RoundTrip(const char* tid, const T& v, std::string* extra) {
     nop::Deserializer<nop::BufferReader> des{buf, n};
     st2 = des.Read(&back);
     used = n - des.reader().remaining();
+  } else if (g_form == 6 && FdCapable<T>::value) {
+    FdRoundTrip(v, buf, sizeof buf, &back, &st, &st2, &n, &size, &used, FdCapable<T>{});
   } else if (g_form == 5) {
     nop::Serializer<nop::StreamWriter<std::stringstream>> ser;
     size = ser.GetSize(v);
@@ -276,7 +334,7 @@ template <> struct Abs<TlLbuf, void> {
 };
 namespace {
 void RunCodec(int t, int k, std::string* extra) {
-  g_form = (k / 16 + t) % 6;
+  g_form = (k / 16 + t) % 7;
   // four more encodings with 8-, 4- and 2-byte block elements (typed block transfers of every width reach the library
   // classes directly in the forms above)
   switch (k % 16) {
